@@ -275,7 +275,10 @@ class CNF(SimpleSequence[Clause]):
 
     def __init__(self, *values):
         super().__init__(*values)
-        self._num_vars = len({abs(var) for clause in self._vals for var in clause})
+        # The highest variable index in use (not the number of distinct
+        # variables): DIMACS headers declare it and fresh variables start
+        # after it, which matters when the variable numbers have gaps.
+        self._num_vars = max((abs(int(var)) for clause in self._vals for var in clause), default=0)
 
     ########################################
     ##
